@@ -4628,13 +4628,15 @@ fn escape(value: &str) -> String {
 /// Text node as printed directly after another text node that was printed as `tail`:
 /// the two must not join into "]]>", which may not occur in character data.
 fn text_after(tail: &str, text: &str) -> String {
-    if tail.ends_with("]]") && text.starts_with('>') {
+    let text = if tail.ends_with("]]") && text.starts_with('>') {
         format!("&gt;{}", &text[1..])
     } else if tail.ends_with(']') && text.starts_with("]>") {
         format!("]&gt;{}", &text[2..])
     } else {
         text.to_string()
-    }
+    };
+    // A text node that was a piece of an attribute value may hold "]]>" itself.
+    text.replace("]]>", "]]&gt;")
 }
 
 fn external_id(id: &parser::ExternalId) -> (String, Option<String>) {
